@@ -68,6 +68,10 @@ def build():
         fns.append(mk(len(fns), "g", "lru", limit=3, tags=tg, events=ev, deps=dp, name=("cn%d" % len(fns)) if i % 2 else None))
         fns.append(mk(len(fns), "a", "fifo", limit=3, tags=tg, events=ev, deps=dp, name=("cn%d" % len(fns)) if i % 2 == 0 else None))
     fns.append(mk(len(fns), "t", "lru", limit=3, tags=("t1",), events=("e1",), deps=("d1",)))
+    # chains: the name of one cache is a label of another (invalidation must not cascade)
+    fns.append(mk(len(fns), "g", "fifo", limit=3, name="chainA", deps=("d1",), tags=("t2",)))
+    fns.append(mk(len(fns), "a", "lru", limit=3, name="chainB", deps=("chainA",), events=("chainA",)))
+    fns.append(mk(len(fns), "g", "lru", limit=3, name="chainC", deps=("chainB",), tags=("chainA", "chainB")))
     # predicates and Result
     for fl in ["g", "t", "a"]:
         fns.append(mk(len(fns), fl, "lru", limit=3, ret=2))
@@ -83,7 +87,7 @@ def build():
         for sig in [1, 2, 3, 4]:
             fns.append(mk(len(fns), fl, "lru", limit=2, sig=sig))
     # seeded sample of the product
-    while len(fns) < 132:
+    while len(fns) < 135:
         fl = r.pick(["g", "g", "t", "a", "a"])
         pol = r.pick(POLICIES)
         limit = r.pick([None, 1, 2, 3, 4])
